@@ -125,6 +125,7 @@ func runC02(c *Ctx, tier string) {
 	runTypedefLatestWins(c, "C02-K2")
 	runElisionEvidence(c, "C02-D1")
 	runFloatShortcutSign(c, "C02-N1")
+	runMapKeyLexicalUnderlying(c, "C02-M1")
 }
 
 // ---------------------------------------------------------------- C03
